@@ -108,6 +108,7 @@ def run_check(pid, tier, seed):
     broken = []          # descriptions of proof obligations / correspondences that no longer check
     obligations = discharged = 0
     axioms = {}
+    rechecked = None
 
     # 1. tables
     tables_info = {}
@@ -151,6 +152,11 @@ def run_check(pid, tier, seed):
             missing = [t for t in by_mod[m] if t not in ax]
             if missing:
                 broken.append({"kind": "audit-failed", "missing": missing[:5], "log": alog[-500:]})
+        if tier == "thorough" and modules:
+            okc, clog, csecs = lean.recheck(modules)
+            rechecked = {"tool": "leanchecker", "modules": modules, "ok": okc, "seconds": round(csecs, 1)}
+            if not okc:
+                broken.append({"kind": "leanchecker", "log": clog[-800:]})
     else:
         fails = lean.failing_decls(log)
         for fl in fails[:8]:
@@ -246,6 +252,7 @@ def run_check(pid, tier, seed):
         "trusted_base": sorted({a for axs in axioms.values() for a in axs}) + list(getattr(mod, "TRUSTED", [])),
         "theorems": thms,
         "axioms_per_theorem": axioms,
+        **({"independent_recheck": rechecked} if rechecked else {}),
         "traces_validated_against_impl": res.evaluations - res.skipped,
         "disagreements_checked": len(res.disagreements),
         "broken_obligations": broken,
